@@ -183,6 +183,12 @@ pub enum COp {
     /// vending only
     RemoveDiscount { who: String },
     UpdatePal { who: String, limit: u32 },
+    /// migrate the minter to its own code id (wasm admin = creator); `stored` rewrites cw2 first
+    Migrate {
+        who: String,
+        #[serde(default)]
+        stored: Option<(String, String)>,
+    },
     /// governance raises / lowers the factory's minimum mint price
     SudoMinPrice { price: u128 },
     // ---- whitelist administration (sender `who`; the whitelist in `slot`, attached or not) ----
@@ -421,6 +427,7 @@ trait World {
     fn update_discount(&mut self, who: &str, price: u128) -> Option<StepOut>;
     fn remove_discount(&mut self, who: &str) -> Option<StepOut>;
     fn update_pal(&mut self, who: &str, limit: u32) -> StepOut;
+    fn migrate(&mut self, who: &str, stored: &Option<(String, String)>) -> StepOut;
     fn sudo_min_price(&mut self, price: u128);
     /// tokens of the collection whose stored metadata is not what the edition was created with
     fn metadata_violations(&self) -> Vec<String> {
@@ -550,6 +557,9 @@ impl World for VWorld {
     fn update_pal(&mut self, who: &str, limit: u32) -> StepOut {
         self.0.run(&Op::UpdatePerAddressLimit { who: who.into(), limit })
     }
+    fn migrate(&mut self, who: &str, stored: &Option<(String, String)>) -> StepOut {
+        self.0.run(&Op::Migrate { who: who.into(), stored: stored.clone() })
+    }
     fn sudo_min_price(&mut self, price: u128) {
         self.0.run(&Op::SudoParams { min_price: Some(price), mint_fee_bps: None, airdrop_price: None, airdrop_fee_bps: None, offset: None, max_pal: None, shuffle_fee: None });
     }
@@ -645,6 +655,9 @@ impl World for OWorld {
     }
     fn update_pal(&mut self, who: &str, limit: u32) -> StepOut {
         self.0.run(&OeOp::UpdatePerAddressLimit { who: who.into(), limit })
+    }
+    fn migrate(&mut self, who: &str, stored: &Option<(String, String)>) -> StepOut {
+        self.0.run(&OeOp::Migrate { who: who.into(), stored: stored.clone() })
     }
     fn sudo_min_price(&mut self, price: u128) {
         self.0.run(&OeOp::SudoParams { min_price: Some(price), mint_fee_bps: None, airdrop_price: None, airdrop_fee_bps: None, offset: None, max_pal: None, max_token_limit: None, dev: None });
@@ -746,6 +759,7 @@ fn kind_of(op: &COp) -> &'static str {
         COp::UpdateDiscount { .. } => "update_discount_price",
         COp::RemoveDiscount { .. } => "remove_discount_price",
         COp::UpdatePal { .. } => "update_per_address_limit",
+        COp::Migrate { .. } => "migrate",
         COp::SudoMinPrice { .. } => "sudo_min_price",
         COp::WlAdd { .. } => "wl_add_members",
         COp::WlRemove { .. } => "wl_remove_members",
@@ -1075,6 +1089,7 @@ pub fn run_case(c: &Case) -> CaseResult {
                 None => continue,
             },
             COp::UpdatePal { who, limit } => (w.update_pal(who, *limit), who.clone(), vec![]),
+            COp::Migrate { who, stored } => (w.migrate(who, stored), who.clone(), vec![]),
             _ => continue,
         };
         if !out.is_minter_step {
@@ -1501,6 +1516,61 @@ fn boundary_cases(fam: Fam, kind: Option<Kind>, sh: usize) -> Vec<Case> {
             spec.iter().cloned().collect(),
             ops,
         ));
+    }
+    v
+}
+
+/// migrations of the minter inside the schedule: after SetWhitelist, after UpdateStartTime, around the
+/// (moved) start and, on the open editions, around the end time
+fn migrate_cases(fam: Fam) -> Vec<Case> {
+    let mig = |who: &str, stored: Option<(&str, &str)>| COp::Migrate { who: who.into(), stored: stored.map(|(a, b)| (a.to_string(), b.to_string())) };
+    let s = T(START, 0);
+    let later = T(START + 100, 0);
+    let mut v = vec![];
+    for kind in [None, Some(fam.compatible()[0])] {
+        let wls: Vec<WlSpec> = kind.map(|k| shape(fam, k, 0).0).into_iter().collect();
+        let mut ops: Vec<COp> = vec![];
+        if kind.is_some() {
+            ops.push(attach(CREATOR, 0));
+        }
+        ops.extend(vec![
+            mig(CREATOR, Some(("@own", "3.8.9"))),
+            at(T(1500, 0)),
+            mint(M1, 60),
+            mint(NM, 60),
+            mig(CREATOR, Some(("@own", "3.9.0"))),
+            mint(M1, 60),
+            at(T(START - 10, 0)),
+            ust(CREATOR, later),
+            mig(CREATOR, Some(("@own", "3.8.0"))),
+            mig(STRANGER, Some(("@own", "3.8.0"))),
+            at(s),
+            mint(NM, PUB),                                   // the old start no longer opens the sale
+            at(later.plus(-1)),
+            mint(NM, PUB),
+            mig(CREATOR, None),
+            at(later),
+            mint(NM, PUB),
+            mig(CREATOR, Some(("@own", "99.0.0"))),
+            mig(CREATOR, Some(("crates.io:something-else", "3.0.0"))),
+            mig(CREATOR, Some(("@own", "3.15.0"))),
+            ust(CREATOR, T(START + 500, 0)),                 // too late, also after a migration
+            mint(M1, PUB),
+        ]);
+        if fam.oe {
+            ops.extend(vec![
+                at(T(END, -1)),
+                mig(CREATOR, Some(("@own", "3.0.0"))),
+                mint(NM, PUB),
+                at(T(END, 0)),
+                mint(NM, PUB),                               // the end time still closes the sale
+                mig(CREATOR, Some(("@own", "3.1.0"))),
+                at(T(END, 1)),
+                mint(M1, PUB),
+                drop_to(fam, CREATOR),
+            ]);
+        }
+        v.push(base_case(format!("migrate:{}:{}", fam.name(), kind.map(|k| k.name()).unwrap_or("none")), fam, wls, ops));
     }
     v
 }
@@ -2080,6 +2150,19 @@ fn random_case(rng: &mut Rng, fam: Fam, n: usize, lits: &[u128]) -> Case {
             }
         }
     }
+    // migrations of the minter at random places (~2.5 % of the operations)
+    {
+        let pool = migrate_version_pool();
+        let mut i = 0;
+        while i <= ops.len() {
+            if rng.below(1000) < 25 {
+                let (who, stored) = gen_migrate_args(rng, &pool);
+                ops.insert(i, COp::Migrate { who, stored });
+                i += 1;
+            }
+            i += 1;
+        }
+    }
     base_case(format!("random:{}:{}+{}", fam.name(), kind.name(), k2.name()), fam, vec![spec, spec2], ops)
 }
 
@@ -2118,6 +2201,7 @@ fn corpus(thorough: bool, rng: &mut Rng) -> Vec<Case> {
     for (fi, fam) in all_fams().into_iter().enumerate() {
         // the start (and end) boundary with no whitelist at all
         v.extend(boundary_cases(fam, None, 0));
+        v.extend(migrate_cases(fam));
         let kinds = fam.compatible();
         let nshapes = if fam.oe { 4 } else { 3 };
         for (ki, kind) in kinds.iter().enumerate() {
